@@ -6,6 +6,9 @@ HERE = os.path.dirname(os.path.dirname(os.path.abspath(__file__)))
 
 # id -> (technique, level text, level note, design ref)
 CLAIMED = {
+ "C07": ("ordered-effect analysis of the byte buffers and field-element objects (which instruction writes what, in dominance order), constant mask evaluation, value-origin and guard (necessary-condition) rules, E7 scalar terms for the low-order-point selectors, global-write/receiver ownership rule for re-entrancy, over go/ssa",
+         "Decides only the structural clauses around the arithmetic: encode ORs exactly tweak&0xc0 into byte 31 after serialising, decode loads once from a private copy masked with 0x3f before any field operation, masks complementary; public key and representative come from one unmodified u and the public key is written only on success; the dirty multiply adds a low-order point keyed by the three low bits of privateKey[0] before conversion; NewKeypair retries with a fresh key until success, private key/tweak from disjoint digest bytes, ToPublic argument order; package-level elements are read-only outside init. NOT decided: the Elligator 2 map and its inverse, round trip, DH agreement, coset coverage (field arithmetic over 2^256 inputs).",
+         "go/types+go/ssa faithful; field.Element methods write only their receiver; elligator2.MontgomeryFlavor is the map", "DESIGN.md section 4, C07"),
  "C09": ("relational bounds analysis with per-path Fourier-Motzkin refutation (burst arithmetic of padBurst over all tail/target pairs, makePacket's appended length, paranoid-mode length guards, makePacket precondition and panic unreachability), type-level array bounds of network writes, value-origin rules (targets and delays are samples), guard-set and E7 term agreement for seed adoption and the three construction sites, over go/ssa",
          "Decides: frames and IAT-mode writes are slices of [1448]byte arrays; burst targets / paranoid lengths / delays are samples of the connection's distributions; only a client adopts a 24-byte seed, lenDist from the payload and iatDist from SHA-256 of it, the server sends the seed its own distribution uses and construction sites agree; makePacket appends exactly 21+len(data)+padLen; every success path of padBurst ends on the target (mod 1448) or the target plus a header and the latter only when the needed padding is at most a header; paranoid writes have at least the sampled length buffered; panics on the Write path unreachable except the recorded finding F1 (zero sample in paranoid mode). Termination of the paranoid resampling loop and timing are not decided.",
          "go/types+go/ssa faithful; contract table (bytes.Buffer, secretbox.Seal, Sample in [minValue,maxValue])", "DESIGN.md section 4, C09"),
